@@ -1,7 +1,9 @@
 (* C19: shutdown timeline model.
-   Line: shutdown <wait_nonneg 0/1> <W> <G> | <arrivals...> | <service times...> [| <signal instants...> | <signal kinds...> [| <sync 0/1...>]]
+   Line: shutdown <wait_nonneg 0/1> <W> <G> | <arrivals...> | <service times...> [| <signal instants...> | <signal kinds...> [| <sync 0/1...> [| <request kinds...>]]]
    (ns, relative to the first signal; the signal lists include the first signal; absent = one signal; sync = the completion
-   of that request is synchronised to the process's close instant)
+   of that request is synchronised to the process's close instant; request kinds = what the request makes the process do
+   (0 proxied to the upstream, 1 login, 2 login after a key rotation at the provider, 3 session refresh, 4 logout): the model
+   does not look at them - a request is an arrival and a service time whatever its kind)
    Output: 0 (refused at start-up) or 1 close deadline exit_time exit_code accepted... completes... robust *)
 open Model
 open Common
@@ -14,4 +16,5 @@ let () = register "shutdown" (fun toks ->
   | [[nn; w; g]; arr; svc] -> go nn w g arr svc [] [] []
   | [[nn; w; g]; arr; svc; sat; skind] -> go nn w g arr svc sat skind []
   | [[nn; w; g]; arr; svc; sat; skind; sync] -> go nn w g arr svc sat skind sync
+  | [[nn; w; g]; arr; svc; sat; skind; sync; _kinds] -> go nn w g arr svc sat skind sync
   | _ -> print_endline "?bad shutdown line")
